@@ -6,6 +6,7 @@ import re
 from sa.model import AnalysisError, Unknown, norm, unwrap
 from sa.query import Facts, call_name, find_calls, try_fold, calls_in, defs_of
 from sa.atoms import AtomExtractor, PathEnv, Atom
+from .c06 import _strip
 from .common import (protocol_classes, device_touching, command_methods, doc)
 from .c04 import value_set, doc_codes
 
@@ -83,6 +84,9 @@ def _gate(run, F, X, pc, vk, spec):
                 a = X.atoms_of_fact(f, env)
                 if a:
                     atoms |= set(a)
+                elif f.kind == "truthy" and isinstance(f.expr, ast.Name) and f.node is not None \
+                        and F._through_flag("T" if f.pol else "F", f.expr, gate, pc, f.node):
+                    continue        # a boolean flag: the facts of its defining expression are in the list already
                 else:
                     raw.append(f.text())
             found.add((frozenset(a.text() for a in atoms), tuple(sorted(raw)), code, norm(v)[:40]))
@@ -93,20 +97,32 @@ def _gate(run, F, X, pc, vk, spec):
         ("absent(version)", "ne(command: version)", gen["invalid_request"], "no version"),
         ("present(version)", f"ne(version: {version})", gen["wrong_version"], "wrong version"),
     ]
+    allowed = {
+        "not a JSON object": {"nottype(<request>: dict)"},
+        "no command": {"type(<request>: dict)", "absent(command)"},
+        "no version": {"type(<request>: dict)", "present(command)", "ne(command: version)", "absent(version)"},
+        "wrong version": {"type(<request>: dict)", "present(command)", "present(version)", f"ne(version: {version})"},
+    }
     for a1, a2, code, what in expect:
         hit = [x for x in found if x[2] == code and a1 in x[0] and (a2 is None or a2 in x[0])]
         run.check("R1", bool(hit), f"{pc.name}: {what} -> {code}",
                   key=f"{pc.name}|gate|{what}", where=gate.loc(),
                   message=f"[{pc.name}] the gate has no return of {code} guarded by {a1}"
                           f"{' and ' + a2 if a2 else ''} ({what})")
+        # ... and by nothing more: a further condition on that verdict exempts some requests from it
+        for x in hit:
+            extra = sorted(set(x[0]) - allowed[what]) + [r_ for r_ in x[1]]
+            run.check("R1", not extra, f"{pc.name}: {what} -> {code} under no further condition", key=f"{pc.name}|gate|{what}|extra-condition",
+                      where=gate.loc(), message=f"[{pc.name}] the `{what}` verdict ({code}) is additionally conditioned on {extra}: requests failing that extra "
+                      "condition escape the verdict the specification prescribes for them")
     # unknown command: guarded by `command not in self._known_commands`, and a non-string
     # command must be classified too (it cannot be hashed)
     unk = [x for x in found if x[2] == gen["unknown_command"]]
     run.check("R1", bool(unk), f"{pc.name}: unknown command -> {gen['unknown_command']}",
               key=f"{pc.name}|gate|unknown command", where=gate.loc(),
               message=f"[{pc.name}] the gate never returns the unknown-command code")
-    conds = [n for n in g.nodes if n.kind == "cond" and isinstance(n.ast, ast.Compare)
-             and isinstance(n.ast.ops[0], ast.NotIn) and "_known_commands" in norm(n.ast.comparators[0])]
+    conds = [n for n in g.nodes if n.kind == "cond" and isinstance(n.ast, ast.Compare) and len(n.ast.ops) == 1
+             and isinstance(n.ast.ops[0], (ast.NotIn, ast.In)) and "_known_commands" in norm(n.ast.comparators[0])]
     run.require(len(conds) == 1, "gate: the `command not in self._known_commands` test vanished")
     kc = conds[0]
     facts_at_kc = []
@@ -130,6 +146,12 @@ def _gate(run, F, X, pc, vk, spec):
                   message=f"[{pc.name}] the gate has an undocumented verdict `{x[3]}` (code {x[2]})")
     # generic codes are documented
     run.extra.setdefault("gate_pairs", {})[pc.name] = len(found)
+    hh = P.method(P.cls("comm.server._RequestHandler"), "handle")
+    rl = find_calls(A, hh, "readline")
+    run.check("R1", len(rl) == 1 and not rl[0].args and not rl[0].keywords, "the request line is read whole (readline() without a size limit)",
+              key="_RequestHandler.handle|readline-limit", where=hh.loc(),
+              message=f"the request is read with {[norm(c)[:40] for c in rl]}: a size limit truncates long valid requests (e.g. updateAncestorBlock with many "
+                      "blocks), which are then answered with the format-error code instead of their own verdict")
 
 
 def _atom_fail_codes(run, X, F, fn, pc, env):
@@ -433,13 +455,28 @@ def _bip32(run, F):
               key="_validate_key_id|BIP32Path-args", where=V.loc(),
               message="_validate_key_id passes an explicit element count to BIP32Path")
     ei = P.method(BE, "__init__")
-    ef = [f.text() for f in F.exit_facts(ei, BE)]
+    from sa.prov import Prov
+    from sa.canon import fold_consts, canon_list_text
+    PVb = Prov(A)
+    locs_e = set(PVb.defs(ei, BE)) | set(ei.params)
+    ef = set()
+    for t in F.exit_texts(ei, BE, PVb):
+        try:
+            ef.add(_strip(norm(fold_consts(P, ast.parse(t, mode="eval").body, ei, BE, locals_=locs_e))))
+        except SyntaxError:
+            ef.add(t)
     for want, what in (("type(spec) == str", "type str"), ("len(spec) != 0", "non-empty"),
-                       ("str.isdecimal(sindex)", "decimal digits"), ("val < 1 << 31", "value < 2^31")):
+                       ("str.isdecimal(sindex)", "decimal digits"), ("val < 2147483648", "value < 2^31")):
         run.check("R2b", want in ef, f"BIP32Element requires {what}", key=f"BIP32Element.__init__|{what}",
                   where=ei.loc(), message=f"BIP32Element.__init__ can complete without `{want}`")
-    # elements built by map(BIP32Element, spec[2:].split('/'))
-    mp = [n for n in A.own_nodes(ini) if isinstance(n, ast.Call) and call_name(n) == "map"]
-    run.check("R2b", len(mp) == 1 and norm(mp[0].args[0]) == "BIP32Element" and norm(mp[0].args[1]) == "spec[2:].split('/')",
+    # elements = one BIP32Element per '/'-separated piece of spec[2:], in order
+    forms = set()
+    for n in A.own_nodes(ini):
+        if isinstance(n, ast.Assign) and norm(n.targets[0]) == "self._elements":
+            for cn in g.nodes_of(n):
+                for x in PVb.expand_consistent(ini, BP, n.value, cn, stop=("spec",)):
+                    cl_ = canon_list_text(x)
+                    forms.add(tuple(cl_) if cl_ is not None else ("?" + x,))
+    run.check("R2b", forms == {("map(BIP32Element(ELEM(spec[2:].split('/'))))",)},
               "elements parsed by BIP32Element from spec[2:].split('/')", key="BIP32Path.__init__|element-parse",
-              where=ini.loc(), message="BIP32Path no longer parses every '/'-separated element with BIP32Element")
+              where=ini.loc(), message=f"BIP32Path builds its elements as {sorted(forms)[:2]}: not one BIP32Element per '/'-separated element, in order")
